@@ -624,7 +624,9 @@ def run(repo, tier):
                  '(a path constraint on the state byte of the latest reply that is false for dfuDNBUSY); erase loop completes before the '
                  'write loop over the same range; erase / set-address addresses normalise to 0x08000000 + page*S where S is the size of the '
                  'chunk written, and the chunk is the slice at page*S; padding identity len = q*S + r => length of the sliced buffer = '
-                 'pages*S with zero bytes only; size guard with capacity S*C precedes the first request; GD32 variant table.')
+                 'pages*S with zero bytes only, pages = q (+1 when r != 0), the padded buffer is the content of the file; size guard with capacity S*C '
+                 'precedes the first request; GD32 variant table.  Whatever is not read (a request field that does not fold, a loop or a '
+                 'test the rules cannot follow, a residue over terms that are not understood) ends without verdict, never in a finding.')
     rep.trusted_base = ['CPython ast', 'bbverif.pathwalk / poly', 'DFU 1.1 and DfuSe numbers (oracle)']
     rep.not_decided = ['that the *device* ends up holding those bytes under all busy/error schedules (needs a device model and schedule exploration)',
                        'len <= S*C  =>  ceil(len/S) <= C is arithmetic, stated, not checked']
